@@ -160,7 +160,11 @@ Section ExactMain.
     | SObj ty fmt enum cst nv sv ik items ai mni mxi uq props req ap mnp mxp allo anyo oneo no ref dflt title =>
         match ref with
         | Some r => ref_x T A r ft t
-        | None => go_plain re D T ex ty enum cst sv ik items mni mxi props req ap no false false ft t
+        | None =>
+            match oneo with
+            | Some bs => union_x T ex bs ft t
+            | None => go_plain re D T ex ty enum cst sv ik items mni mxi props req ap no false false ft t
+            end
         end
     end.
 
@@ -168,8 +172,8 @@ Section ExactMain.
   Proof.
     destruct s as [b|ty fmt enum cst nv sv ik items ai mni mxi uq props req ap mnp mxp allo anyo oneo no ref dflt title];
       [discriminate|].
-    intro Hf. apply frag_obj_inv in Hf. destruct Hf as (nl & k & _ & _ & -> & -> & -> & _).
-    reflexivity.
+    intro Hf. apply frag_obj_inv in Hf. destruct Hf as (nl & k & _ & _ & -> & -> & _ & _).
+    cbn [exact exact_obj Es]. destruct ref; [reflexivity|]. destruct oneo; reflexivity.
   Qed.
 
   (* a type of non-nullable shape is not an Option *)
@@ -202,10 +206,11 @@ Section ExactMain.
         * destruct Hs as (ts & Hs & _). unfold has in Hs. rewrite Hs. reflexivity.
         * destruct Hs as (i & Hs & _). unfold has in Hs. rewrite Hs. destruct c; reflexivity.
         * destruct Hs as (i & Hs & _). unfold has in Hs. rewrite Hs. destruct c; reflexivity.
-    - destruct Hrk as [(r & -> & ->)|(-> & ->)]; cbn [kshape] in Hs.
+    - destruct Hrk as [(r & -> & ->)|[(-> & ->)|(bs & tg & -> & -> & -> & _)]]; cbn [kshape] in Hs.
       + destruct Hs as (_ & d & Hd & Hnm). unfold has in Hd. rewrite Hd.
         destruct d; try reflexivity. exfalso. apply Hnm. reflexivity.
       + unfold has in Hs. rewrite Hs. reflexivity.
+      + destruct Hs as (n & vs & deny & bes & names & ids & Hs & _). unfold has in Hs. rewrite Hs. reflexivity.
   Qed.
 
   (* ... and does not reach an Option through Box / newtype layers either (a "$ref" to a
@@ -235,10 +240,12 @@ Section ExactMain.
         try (destruct Hs as (? & Hs & _); unfold has in Hs; rewrite Hs; try reflexivity;
              match goal with c : _ |- _ => destruct c; reflexivity end) ]).
     - (* fuel 0, "$ref" or no type: nullable answers true for a "$ref" *)
-      destruct Hrk as [(r & -> & ->)|(-> & ->)]; cbn [kshape] in Hs.
+      destruct Hrk as [(r & -> & ->)|[(-> & ->)|(bs & tg & -> & -> & -> & _)]]; cbn [kshape] in Hs.
       + cbn [nullable] in Hn. discriminate Hn.
       + cbn [reaches_option]. unfold has in Hs. rewrite Hs. reflexivity.
-    - destruct Hrk as [(r & -> & ->)|(-> & ->)]; cbn [kshape] in Hs.
+      + destruct Hs as (n & vs & deny & bes & names & ids & Hs & _). cbn [reaches_option]. unfold has in Hs. rewrite Hs. reflexivity.
+    - destruct Hrk as [(r & -> & ->)|[(-> & ->)|(bs & tg & -> & -> & -> & _)]]; cbn [kshape] in Hs.
+      3: { destruct Hs as (n & vs & deny & bes & names & ids & Hs & _). cbn [reaches_option]. unfold has in Hs. rewrite Hs. reflexivity. }
       + destruct Hs as (Hri & _). cbn [nullable] in Hn.
         unfold ref_id in Hri. destruct (ref_index_assoc D r 1 t Hri) as (j & sr & Hnth & Hi & Ha).
         unfold resolve_ref in Hn. rewrite Ha in Hn.
@@ -336,22 +343,23 @@ Section ExactMain.
     - intros ty fmt enum cst nv sv ik items ai mni mxi uq props req ap mnp mxp allo anyo oneo no ref dflt title
              IHitems _ IHprops IHap _ _ _ _.
       intros Hf Hne t Hs ft.
-      pose proof Hf as Hfi. apply frag_obj_inv in Hfi. destruct Hfi as (nl & k & Hcl & -> & -> & -> & -> & ->).
+      pose proof Hf as Hfi. apply frag_obj_inv in Hfi. destruct Hfi as (nl & k & Hcl & -> & -> & -> & Hone & ->).
       pose proof Hcl as Hcases. apply classify_cases in Hcases.
-      cbn [frag] in Hf. rewrite Hcl in Hf. change (frag_kind cls D k items props req ap = true) in Hf.
+      cbn [frag] in Hf. rewrite Hcl in Hf. change (frag_kind cls D k items props req ap oneo = true) in Hf.
       cbn [no_nullable_enum] in Hne. rewrite Hcl in Hne.
       cbn [shape] in Hs. rewrite Hcl in Hs.
       destruct Hcases as [(l & tt & -> & -> & Hsp & Hkt)
                          |(-> & -> & -> & -> & -> & -> & -> & -> & -> & -> & -> & -> & -> & Hrk)].
       + (* typed node *)
-        cbn [Es].
         pose proof Hkt as Hinv. apply kind_of_type_inv in Hinv.
         destruct Hinv as (_ & Hsv & Hlen & Henum & Hikk & Hobj & Hfmt & Hinv).
+        assert (Honone : oneo = None) by (destruct k; try exact Hone; contradiction).
+        subst oneo. cbn [Es].
         assert (Hvt : forall v, type_ok false tt v = true -> valid_type serde_ints (Some l) v = true)
           by (intros v; apply valid_type_split with (nl := nl); exact Hsp).
         (* reduce to the non-null part *)
         assert (Hred : forall t0,
-          kshape cls D T (shape cls D T) k items props req ap t0 ->
+          kshape cls D T (shape cls D T) k items props req ap None t0 ->
           (forall d, get_det T t0 = Some d ->
              match d with
              | DOption _ | DBox _ => False
@@ -368,8 +376,8 @@ Section ExactMain.
               repeat match goal with
                      | H : exists _, _ |- _ => destruct H as (? & H)
                      | H : _ /\ _ |- _ => destruct H as [H ?]
-                     end; congruence. }
-        assert (Hleaf : forall t0, kshape cls D T (shape cls D T) k items props req ap t0 ->
+                     end; try contradiction; congruence. }
+        assert (Hleaf : forall t0, kshape cls D T (shape cls D T) k items props req ap None t0 ->
                   (nl = true -> match k with KEnum _ => False | _ => True end) ->
                   forall d, get_det T t0 = Some d ->
                   match d with
@@ -379,7 +387,7 @@ Section ExactMain.
              end /\
                   leaf_x re D T ex (Some l) enum None sv ik items mni mxi props req ap None false false d = true).
         { intros t0 Hk0 Hnle d Hd.
-          destruct k as [| | | |mx mn pat|r|raws|deny| | |c|c|r|]; try contradiction; cbn [kshape] in Hk0;
+          destruct k as [| | | |mx mn pat|r|raws|deny| | |c|c|r| |tg]; try contradiction; cbn [kshape] in Hk0;
             cbn beta iota in Hsv, Hlen, Henum, Hikk, Hobj.
           - unfold has in Hk0. rewrite Hk0 in Hd. injection Hd as <-. split; [exact I|]. subst tt enum sv.
             cbn [leaf_x]. unfold common, ty_rep. cbn [forallb]. rewrite (Hvt (JBool true) eq_refl). reflexivity.
@@ -423,6 +431,7 @@ Section ExactMain.
             unfold has in Hk0. rewrite Hk0 in Hd. injection Hd as <-. split; [exact I|]. destruct Hinv as [-> Hap].
             destruct Hikk as [-> ->]. subst enum sv.
             cbn [frag_kind] in Hf. apply andb_true_iff in Hf. destruct Hf as [Hf Hfp].
+            apply andb_true_iff in Hf. destruct Hf as [Hf _].
             apply andb_true_iff in Hf. destruct Hf as [Hf _]. apply andb_true_iff in Hf. destruct Hf as [Hks Hreq].
             cbn [leaf_x]. unfold common. cbn [is_none deny_of orb andb no_items].
             apply struct_x_ok; try assumption.
@@ -494,10 +503,63 @@ Section ExactMain.
           apply (Hred i Hki). intros d Hd. apply (Hleaf i Hki); [|exact Hd].
           intros _. destruct k; try exact I. discriminate Hne.
         * apply (Hred t Hs). intros d Hd. apply (Hleaf t Hs); [discriminate|exact Hd].
-      + (* reference / anything *)
-        destruct Hrk as [(r & -> & ->)|(-> & ->)]; cbn [kshape] in Hs; cbn [Es].
+      + (* reference / anything / tagged oneOf *)
+        destruct Hrk as [(r & -> & ->)|[(-> & ->)|(bs & tg & -> & -> & -> & Hok)]]; cbn [kshape] in Hs; cbn [Es].
         * destruct Hs as (Hri & _). apply refx_here. apply mem_pair_x_index. exact Hri.
-        * unfold has in Hs. rewrite (gp_leaf _ _ _ _ _ _ _ _ _ _ _ _ _ _ _ Hs I). reflexivity.
+        * subst oneo. unfold has in Hs. rewrite (gp_leaf _ _ _ _ _ _ _ _ _ _ _ _ _ _ _ Hs I). reflexivity.
+        * (* externally tagged: no null branch, no common tag, every branch names variants of the right kind *)
+          destruct (one_kind_external bs tg Hok) as (-> & names0 & Hn0 & Hnd0).
+          destruct Hs as (n & vs & deny & bes & names & ids & Hd & Hnames & Hndn & Hv & Hraw & Hident & Hbr).
+          unfold has in Hd. cbn [union_x]. rewrite Hd. cbn [wrapper_of].
+          assert (Hndv : NoDup (map v_raw vs)) by (rewrite Hraw; exact Hndn).
+          assert (Hcase : forall b, In b bs ->
+                    (exists es l, b = xsimple_sch es /\ jstrs es = Some l /\ l <> []) \/ (exists v sc, b = xbranch v sc /\ In v names)).
+          { clear - Hnames. revert names Hnames. induction bs as [|b0 r IH]; intros names Hn b Hb; [destruct Hb|].
+            destruct (xall_names_cons b0 r names Hn) as (l & rest & Hb0 & Hr & ->).
+            destruct Hb as [<-|Hb].
+            - destruct (xnames_cases b0 l Hb0) as [(es & -> & Hj & Hne)|(v & sc & -> & ->)].
+              + left. exists es, l. repeat split; assumption.
+              + right. exists v, sc. split; [reflexivity|left; reflexivity].
+            - destruct (IH rest Hr b Hb) as [H|(v & sc & H1 & H2)]; [left; exact H|].
+              right. exists v, sc. split; [exact H1|apply in_or_app; right; exact H2]. }
+          assert (H1 : no_null bs = true).
+          { unfold no_null. apply negb_true_iff. apply Bool.not_true_is_false. intro Hex.
+            apply existsb_exists in Hex. destruct Hex as (b & Hb & Hnull).
+            destruct (Hcase b Hb) as [(es & l & -> & _)|(v & sc & -> & _)]; discriminate Hnull. }
+          assert (H2 : common_tag bs = None).
+          { cbn beta iota in Hne.
+            destruct bs as [|b0 r]; [reflexivity|]. unfold common_tag.
+            destruct (Hcase b0 (or_introl eq_refl)) as [(es & l & -> & _)|(v & sc & -> & Hvin)]; [reflexivity|].
+            cbn [sch_props xbranch map fst filter].
+            match goal with |- context [if ?c then _ else _] => destruct c eqn:Hall end; [|reflexivity].
+            exfalso. rewrite forallb_forall in Hall.
+            destruct r as [|b1 r'].
+            - (* a single branch: excluded by no_pinned *)
+              cbn [no_pinned] in Hne. rewrite xtyped_sch in Hne. apply negb_true_iff in Hne.
+              specialize (Hall _ (or_introl eq_refl)). apply andb_true_iff in Hall. destruct Hall as [Hall _].
+              unfold branch_tag_of in Hall. cbn [sch_props xbranch assoc] in Hall. rewrite ustr_eqb_refl in Hall.
+              unfold pins in Hne. destruct (sch_enum sc) as [[|[] [|]]|]; destruct (sch_const sc) as [[]|]; discriminate.
+            - (* another branch does not have the property [v] *)
+              specialize (Hall b1 (or_intror (or_introl eq_refl))). apply andb_true_iff in Hall. destruct Hall as [Hall _].
+              destruct (Hcase b1 (or_intror (or_introl eq_refl))) as [(es & l & -> & _)|(v1 & sc1 & -> & _)]; [discriminate Hall|].
+              unfold branch_tag_of in Hall. cbn [sch_props xbranch assoc] in Hall.
+              destruct (ustr_eqb v v1) eqn:E; [|discriminate Hall]. apply ustr_eqb_eq in E. subst v1.
+              (* v twice among the names *)
+              cbn [xall_names] in Hnames. rewrite !(fun a b => xnames_typed a b) in Hnames.
+              destruct (xall_names r') as [rest|]; [|discriminate]. injection Hnames as <-.
+              cbn [app] in Hndn. inversion Hndn as [|? ? Hni _]; subst. apply Hni. left. reflexivity. }
+          rewrite H1, H2. cbn [is_none andb].
+          apply forallb_forall. intros b Hb.
+          pose proof (proj1 (AllP_In _ _) Hbr b Hb) as Hbsh.
+          destruct (Hcase b Hb) as [(es & l & -> & Hj & Hnel)|(v & sc & -> & Hvin)].
+          -- unfold ext_branch_x. cbn [sch_enum xsimple_sch]. rewrite (jstrs_map _ _ Hj).
+             apply forallb_forall. intros e Hein. apply in_map_iff in Hein. destruct Hein as (x & <- & Hx).
+             cbn [branch_sh xsimple_sch] in Hbsh.
+             destruct (Hbsh l (xsimple_sch_spec es l Hj Hnel) x Hx) as (vr & Hvr & Hrw & Hdt).
+             destruct (find_variant_nodup vs Hndv vr 0%nat Hvr) as (i & Hfv). rewrite Hrw in Hfv. rewrite Hfv, Hdt. reflexivity.
+          -- unfold ext_branch_x. cbn [sch_enum sch_props sch_required sch_additional_props xbranch is_closed].
+             unfold raws. rewrite Hraw. rewrite (proj2 (mem_ustr_In v names) Hvin).
+             unfold mem_ustr. cbn [existsb]. rewrite ustr_eqb_refl. reflexivity.
   Qed.
 
   Lemma Es_newtype s ft t n dv i :
@@ -507,7 +569,9 @@ Section ExactMain.
       [reflexivity|].
     intros Hd Hi. cbn [Es] in *. destruct ref as [r|].
     - eapply refx_newtype; eassumption.
-    - rewrite (gp_newtype _ _ _ _ _ _ _ _ _ _ _ _ _ _ _ _ _ Hd). exact Hi.
+    - destruct oneo as [bs|].
+      + cbn [union_x]. rewrite Hd. cbn [wrapper_of]. exact Hi.
+      + rewrite (gp_newtype _ _ _ _ _ _ _ _ _ _ _ _ _ _ _ _ _ Hd). exact Hi.
   Qed.
 
   Lemma topshape_exact s t :
